@@ -1430,3 +1430,16 @@ VP("C13-R3D-mut-all-fields-aliases-schema", "C13", "helper returning the schema'
    "        return {**self._schema._fields, **self._fields}", "        merged = self._schema._fields\n        merged.update(self._fields)\n        return merged")
 V("C12-ctor-defaults-overwrite-keywords", "C12", "constructor stores the default for every field after the keywords were applied", CORE,
   "            if key in data:\n                continue\n\n            field.__setdefault__(self)", "            field.__setdefault__(self)")
+VP("C11-R3C-mut-failfast-swallow-wrapped", "C11", "merged handler: a ValidationError in raising mode is collected instead of raised", "C11-R3C", CORE,
+   "                if fail_fast and already_wrapped:\n                    raise\n                problem = err if already_wrapped else ValidationError(config, fld, err)\n                if fail_fast:\n                    raise problem from err",
+   "                problem = err if already_wrapped else ValidationError(config, fld, err)\n                if fail_fast and not already_wrapped:\n                    raise problem from err")
+VP("C11-R3C-mut-validator-result-dropped", "C01", "alias form: custom validator called but its result dropped", "C11-R3C", CORE,
+   "        return custom(cfg, checked) if custom else checked", "        if custom:\n            custom(cfg, checked)\n        return value")
+VP("C11-R3C-mut-validator-never-called", "C11", "alias form: custom validator never called", "C11-R3C", CORE,
+   "        return custom(cfg, checked) if custom else checked", "        return checked")
+VP("C11-R3C-mut-unwrapped-escape", "C11", "merged handler: a foreign exception is re-raised unwrapped in raising mode", "C11-R3C", CORE,
+   "                if fail_fast and already_wrapped:\n                    raise\n                problem = err if already_wrapped else ValidationError(config, None, err)",
+   "                if fail_fast:\n                    raise\n                problem = err if already_wrapped else ValidationError(config, None, err)")
+V("C11-schema-validator-error-unwrapped", "C11", "a foreign exception from a schema validator is re-raised unwrapped", CORE,
+  "                exc = ValidationError(config, None, err)\n                if not collect_errors:\n                    raise exc from err",
+  "                exc = ValidationError(config, None, err)\n                if not collect_errors:\n                    raise")
